@@ -1,4 +1,5 @@
 import Spdc.Model.Crystals
+import Spdc.Model.CrystalText
 import Spdc.Model.Wire
 /-! Line-protocol handlers for the crystal family (C01) — Float instance of the model. -/
 namespace Spdc.Driver.Crystal
@@ -35,6 +36,14 @@ def handle (op : String) (args : List String) : Option String :=
     pure (match fromString s with
       | some c => c.variant
       | none => "OTHER")
+  | "from_string_hex", [h] => do
+    -- identifier in a textual variant (whitespace, case, quotes …): `from_string` and `FromStr` take the exact id only
+    let s ← decodeHexAscii h
+    let o := match fromString s with
+      | some c => c.variant
+      | none => "OTHER"
+    pure s!"{o} {o}"
+  | "parse_form", [form, _crystal] => parseFormOutcome form
   | "to_string", [v] => do
     let c ← Crystal.ofVariant v
     pure (Crystals.toString c)
